@@ -1,4 +1,7 @@
 import ProductMD.Model.Validation
+import ProductMD.Model.RpmsLegacy
+import ProductMD.Model.ComposeInfoLegacy
+import ProductMD.Model.TreeInfoLegacy
 /-!
 # Model of `load`/`loads` (C07)
 
@@ -11,10 +14,13 @@ import ProductMD.Model.Validation
              (`validatesLast Gen.struct_*_deserialize`), and the final `self.validate()` of `loads`.
 
 C07 observes only "exception vs normal return", so the interleaving of `fill` and `checks` (which error comes first) is not
-modelled: both orders fail on the same documents.  Readers of older formats selected by a version gate are NOT modelled
-(`Err.other` = outside the model): composeinfo < 0.3 / ≤ 0.3, rpms ≤ 0.3, treeinfo 0.0 – 0.3.  For composeinfo and treeinfo
-only the leading sections are filled (header, compose, release, base product; header, release, base product, tree): the
-variant forest and the remaining treeinfo sections are C01/C04's readers, here a parameter of the soundness theorems.
+modelled: both orders fail on the same documents.  The models are TOTAL over header versions: where a generated version gate
+selects a reader of an older format, `fill` takes that branch, built from C05's models of the legacy-specific steps
+(`Mf.dateTypeRespinOf` for the compose section below 0.3, the `product` section at ≤ 0.3, `Mf.manifest03` for the rpms manifest
+at ≤ 0.3, `CI.Legacy.isLegacyTop` / `prefixKids` for the variant table below 1.0, `TI.Legacy.deserialize` for treeinfo ≤ 0.3 and
+files without a header).  The `validate()` calls are the same for every version: each class's `deserialize` dispatches on the
+gate and validates AFTER the dispatch (`validatesLast` of the dispatcher, `LFlag.*`), `C07_legacy_dispatch` pins that the legacy
+readers are reached only through those dispatchers.
 -/
 namespace PM.Val.Loads
 open PM PM.Val
@@ -127,14 +133,25 @@ def notLegacy (g : Gate) (vt : Nat × Nat) : Except Err Unit :=
   | some false => .ok ()
   | _ => .error .other                            -- legacy reader, or a gate the translator did not recognise
 
+/-- the verdict of a generated gate; a comparison the translator could not read has no semantics (`Err.other`) -/
+def gateB (g : Gate) (vt : Nat × Nat) : Except Err Bool :=
+  match g.eval? vt with
+  | some b => .ok b
+  | none => .error .other
+
+/-- `Compose.deserialize` without its final `validate()`: `deserialize_0_3` below the generated gate (`< (0, 3)`: date, type and
+respin are decoded from the id, C05's `Mf.dateTypeRespinOf` = `get_date_type_respin`; the stored `type` must exist but is
+overwritten), `deserialize_1_0` otherwise -/
 def composeFill (vt : Nat × Nat) (payload : PyVal) : Except Err Obj := do
-  notLegacy Gen.gate_composeinfo_Compose_deserialize_0 vt
+  let legacy ← gateB Gen.gate_composeinfo_Compose_deserialize_0 vt
   let sec ← getItem payload c!"compose"
   let id ← getItem sec c!"id"
   let label ← getD sec c!"label" .none
   let ty ← getItem sec c!"type"
-  let date ← getItem sec c!"date"
-  let respin ← getItem sec c!"respin"
+  let (date, ty, respin) ← if legacy then Mf.dateTypeRespinOf id else do
+    let date ← getItem sec c!"date"
+    let respin ← getItem sec c!"respin"
+    pure (date, ty, respin)
   let final ← getD sec c!"final" (.bool false)
   .ok [(c!"id", id), (c!"label", orNone label), (c!"type", ty), (c!"date", date), (c!"respin", respin), (c!"final", pyBool final)]
 
@@ -144,15 +161,17 @@ def lowerOf (v : PyVal) : Except Err PyVal :=
   | .other _ => .error .other
   | _ => .error .attributeError
 
+/-- `Release.deserialize` without its final `validate()`: at `<= (0, 3)` (generated gate) the section is called `product` and
+`internal` is reset to `False` (`deserialize_0_3`) -/
 def ciReleaseFill (vt : Nat × Nat) (data : PyVal) : Except Err Obj := do
-  notLegacy Gen.gate_composeinfo_Release_deserialize_0 vt
-  let sec ← getItem data c!"release"
+  let legacy ← gateB Gen.gate_composeinfo_Release_deserialize_0 vt
+  let sec ← getItem data (if legacy then c!"product" else c!"release")
   let name ← getItem sec c!"name"
   let version ← getItem sec c!"version"
   let short ← getItem sec c!"short"
   let ty ← lowerOf (← getD sec c!"type" (.str c!"ga"))
   let lay ← getD sec c!"is_layered" (.bool false)
-  let int ← getD sec c!"internal" (.bool false)
+  let int ← if legacy then pure (.bool false) else getD sec c!"internal" (.bool false)
   .ok [(c!"name", name), (c!"version", version), (c!"short", short), (c!"type", ty), (c!"is_layered", pyBool lay), (c!"internal", pyBool int)]
 
 def ciBaseProductFill (data : PyVal) : Except Err Obj := do
@@ -192,12 +211,14 @@ end LFlag
 
 def simpleFill (cls : String) (expected table : Str) (legacy : Option Gate) (doc : PyVal) : Except Err SimpleM := do
   let (h, vt) ← headerFill expected doc
-  match legacy with
-  | some g => notLegacy g vt
-  | none => pure ()
+  let old ← match legacy with
+    | some g => gateB g vt
+    | none => pure false
   let payload ← getItem doc c!"payload"
   let compose ← composeFill vt payload
-  let _ ← getItem payload table
+  -- rpms `deserialize_0_3` (C05's model): the 0.3 manifest is replayed through `Rpms.add`, which refuses unknown arches / categories,
+  -- blank or absolute paths, malformed NEVRAs; `deserialize_1_0` stores the table as given
+  let _ ← if old then Mf.manifest03 payload else getItem payload table
   .ok ⟨cls, h, compose⟩
 
 def simpleChecks (m : SimpleM) : List Step :=
